@@ -101,7 +101,10 @@ class PolicyEnv:
     def __init__(self):
         self.scratch = Scratch()
         self.dir = self.scratch.dir
-        self.clock = 1000000000
+        # the virtual clock runs ahead of the real one, so that a stamped
+        # change is always newer than anything created with the real time
+        import time
+        self.clock = int(time.time()) + 1000000
 
     def close(self):
         self.scratch.close()
@@ -123,6 +126,13 @@ class PolicyEnv:
         with open(p, 'w') as f:
             f.write(raw)
         self.tick(p)
+        return p
+
+    def mkdir(self, rel):
+        p = self.path(rel)
+        os.makedirs(p, exist_ok=True)
+        self.clock += 10
+        os.utime(p, (self.clock, self.clock))
         return p
 
     def tick(self, p=None):
